@@ -2,6 +2,7 @@ package main
 
 import (
 	"fmt"
+	"go/types"
 	"sort"
 	"strconv"
 	"strings"
@@ -234,6 +235,21 @@ func (ex *Exec) intrinsic(fn *ssa.Function, args []Val) Val {
 		return BVC(64, uint64(int64(ex.indexByte(s, needle))))
 	case "strings.Index":
 		return BVC(64, uint64(int64(ex.indexStr(args[0].(*StrV), args[1].(*StrV)))))
+	case "strings.HasPrefix", "strings.HasSuffix":
+		str, pre := args[0].(*StrV), args[1].(*StrV)
+		if len(pre.b) > len(str.b) {
+			return tFalse
+		}
+		ex.cost += len(pre.b)
+		off := 0
+		if name == "strings.HasSuffix" {
+			off = len(str.b) - len(pre.b)
+		}
+		var cs []*Term
+		for i := range pre.b {
+			cs = append(cs, Cmp("=", str.b[off+i], pre.b[i]))
+		}
+		return And(cs...)
 	case "strings.Contains":
 		return ex.containsTerm(args[0].(*StrV), args[1].(*StrV))
 	case "strings.ToUpper":
@@ -302,6 +318,61 @@ func (ex *Exec) intrinsic(fn *ssa.Function, args []Val) Val {
 	case "(*strings.Builder).String":
 		o := args[0].(*PtrV).o
 		return &StrV{b: append([]*Term(nil), o.v.(*BuilderV).b...)}
+	}
+	switch name {
+	case "(*sync.Mutex).Lock", "(*sync.Mutex).Unlock", "(*sync.RWMutex).Lock", "(*sync.RWMutex).Unlock", "(*sync.RWMutex).RLock", "(*sync.RWMutex).RUnlock":
+		// a single call is explored at a time: locks are no-ops (DESIGN.md 3.5)
+		return nil
+	case "(*sync.Mutex).TryLock":
+		return tTrue
+	case "(*sync.Once).Do":
+		o := args[0].(*PtrV).o
+		if ex.onceDone == nil {
+			ex.onceDone = map[*Obj]bool{}
+		}
+		if !ex.onceDone[o] {
+			ex.onceDone[o] = true
+			ex.undo = append(ex.undo, func() { delete(ex.onceDone, o) })
+			f := args[1].(*FuncV)
+			ex.call(f.fn, nil, f.env)
+		}
+		return nil
+	case "(*sync.Pool).Put":
+		o := args[0].(*PtrV).o
+		if ex.pools == nil {
+			ex.pools = map[*Obj][]Val{}
+		}
+		ex.pools[o] = append(ex.pools[o], args[1])
+		return nil
+	case "(*sync.Pool).Get":
+		o := args[0].(*PtrV).o
+		have := ex.pools[o]
+		takeNew := true
+		if len(have) > 0 {
+			// nondeterministic: the runtime may hand back any object put earlier, or none
+			c, _ := ex.fork(func() ([]*Term, []uint64) { return []*Term{tTrue, tTrue}, nil })
+			takeNew = c == 1
+		}
+		if !takeNew {
+			v := have[len(have)-1]
+			ex.pools[o] = have[:len(have)-1]
+			return v
+		}
+		// field New of sync.Pool
+		st := fn.Signature.Recv().Type().(*types.Pointer).Elem().Underlying().(*types.Struct)
+		for i := 0; i < st.NumFields(); i++ {
+			if st.Field(i).Name() == "New" {
+				f, _ := load(o.sub[i]).(*FuncV)
+				if f == nil || f.fn == nil {
+					return nil
+				}
+				return ex.call(f.fn, nil, f.env)
+			}
+		}
+		return nil
+	}
+	if strings.HasPrefix(name, "sync/atomic.") || strings.HasPrefix(name, "(*sync/atomic.") {
+		ex.end("unsupported", "atomic operation "+name+" (shared mutable state; see C05)")
 	}
 	ex.end("unsupported", "external call "+name)
 	return nil
